@@ -14,3 +14,14 @@ pub fn read_from_stream_havoc<S: IoStream>(inner: &mut Inner, stream: &mut S, fr
         *final(state) is Steady ==> (*old(state) is Steady && final(state)->Steady_0 == (Channel0Slot { blocked_tx: final(state)->Steady_0.blocked_tx, ..old(state)->Steady_0 })),
         final(stream).written() == old(stream).written(),
 { unimplemented!() }
+
+// ---- the same call in handle_handshake_event (closure `|inner, frame| state.process(inner, frame)` over HandshakeState) ----
+// What units `framebuf` and `handshake` prove for every input: the handshake invariant hs_inv is kept by every frame processed
+// ([C16,C17.handshake_invariant_kept]), whether the read ends with Ok or with an error; throttling state untouched. Composition assumed.
+#[verifier::external_body]
+pub fn read_from_stream_havoc_hs<Auth: Sasl, S: IoStream>(inner: &mut Inner, stream: &mut S, frame_buffer: &mut FrameBuffer, state: &mut HandshakeState<Auth>) -> (r: Result<()>)
+    requires handshake_state::hs_inv(old(state), old(inner)),
+    ensures handshake_state::hs_inv(final(state), final(inner)), final(inner).chan_slots == old(inner).chan_slots,
+        final(inner).channels_are_registered == old(inner).channels_are_registered, final(inner).mio_channel_bound == old(inner).mio_channel_bound,
+        final(stream).written() == old(stream).written(),
+{ unimplemented!() }
